@@ -40,6 +40,10 @@ let install register get getn geti getb =
     let e = { le_mode = getn kv "mode"; le_links = getn kv "links"; le_uid = bytes_of_hex (get kv "uid");
               le_gid = bytes_of_hex (get kv "gid"); le_size = z "sneg" "sabs"; le_mtime = z "mneg" "mabs";
               le_name = bytes_of_hex (get kv "name") } in
-    let n0 = z "nneg0" "now0" and n1 = z "nneg1" "now1" in
+    (* a zone at a fixed offset east of UTC (seconds; absent = UTC): the line is that of the shifted clock - Format and AddDate
+       both work on the zone's wall clock, and comparing two instants is comparing them shifted by the same amount *)
+    let tz = (try z "tzneg" "tz" with _ -> Z0) in
+    let e = { e with le_mtime = Z.add e.le_mtime tz } in
+    let n0 = Z.add (z "nneg0" "now0") tz and n1 = Z.add (z "nneg1" "now1") tz in
     if shows_year e.le_mtime n0 <> shows_year e.le_mtime n1 then "skip"
     else "ls=" ^ hex_of_bytes (run_ls n0 e))
